@@ -74,6 +74,29 @@ impl BuildRecord {
             });
         }
 
+        // The product name is a path segment of every request that names it
+        // (`v1/products/{product}/versions` on TCP, `/{product}/versions` on HTTP) and a
+        // cell of the `v1/summary` table: a '/', a leading '#' (BPSV comment line), white
+        // space at an edge (trimmed by readers) or a "." / ".." segment (resolved away by
+        // HTTP clients) makes a product that can be listed but never requested, or the
+        // other way round. Accept what this project's client accepts in an endpoint,
+        // minus the separator.
+        if matches!(self.product.as_str(), "." | "..")
+            || !self
+                .product
+                .chars()
+                .all(|c| c.is_alphanumeric() || matches!(c, '_' | '-' | '.'))
+        {
+            return Err(DatabaseError::InvalidField {
+                field: "product".to_string(),
+                build_id: self.id,
+                reason: format!(
+                    "product name may only contain letters, digits, '_', '-' and '.', got '{}'",
+                    self.product
+                ),
+            });
+        }
+
         // Validate version and build
         if self.version.is_empty() {
             return Err(DatabaseError::InvalidField {
@@ -377,6 +400,24 @@ mod tests {
         build.build_config = "invalid".to_string();
         let err = build.validate().unwrap_err();
         assert!(matches!(err, DatabaseError::InvalidField { .. }));
+    }
+
+    #[test]
+    fn test_product_name_must_be_a_single_path_segment() {
+        for ok in ["wow", "wow_classic_era", "anbs-event", "a.b", "WoW"] {
+            let mut build = create_test_build();
+            build.product = ok.to_string();
+            assert!(build.validate().is_ok(), "{ok}");
+        }
+        for bad in ["wow/classic", "#beta", " wow", "wow ", "a b", "..", "."] {
+            let mut build = create_test_build();
+            build.product = bad.to_string();
+            let err = build.validate().unwrap_err();
+            assert!(
+                matches!(err, DatabaseError::InvalidField { ref field, .. } if field == "product"),
+                "{bad}"
+            );
+        }
     }
 
     #[test]
